@@ -165,7 +165,81 @@ def C16(ctx):
     return ctx.finish(min_evals=20000, min_buckets=20)
 
 
-CHECKS = {"C04": C04, "C06": C06, "C14": C14, "C15": C15, "C16": C16, "C07": C07, "C08": C08, "C09": C09, "C10": C10, "C17": C17, "C19": C19, "C20": C20}
+SPEC = ["spec.c"]
+
+
+def C01(ctx):
+    ctx.rule = ("case = one random LEGAL set-up drawn by the independent Vorbis I model (harness/spec.c, written from doc/*.tex) in one of 10 feature strata "
+                "(floor 1; floor 0; 3-255 channels with chained coupling and up to 16 submaps; block-size extremes incl. 64/64, 64/8192, 8192/8192; books up to 2^14 "
+                "(thorough 2^18) entries, ordered/sparse/single-entry, dims 1-32; up to 64 modes / 8 mappings; cascade-heavy residues with up to 64 classes; "
+                "lookup 1 and 2 with sequence_p; residue 0/1/2 with begin/end beyond the vector and partition sizes not aligned to anything) + 6-16 (6-40) audio "
+                "packets written by the model's syntax-level random encoder, all window transitions, optional end trim; the model re-parses its own headers with its "
+                "strict parser; evaluation = one packet: libvorbis must accept it, consume exactly the bits the model consumes, deliver exactly the specified number "
+                "of samples, each within 1e-4 (floor 0: 5e-3) x the block's error scale of the float64 reference decode; blocks the specification does not determine "
+                "up to single-precision rounding (near-singular floor-0 LSP, exp overflow, coupling operands that cancel to ~0, non-finite) are counted, not judged; "
+                "bucket = (stratum, block-size pair, channel class, floor types, residue types, end trim) with >=1 block judged")
+    ctx.assumptions = TRUST_COMMON + ["the model (spec.c) is the largest trusted component; its writer, parser and decoder were written from the specification text only",
+                                      "classbook codes >= classifications^dim are never written (the specification wraps them, libvorbis treats them as end of packet)",
+                                      "IMDCT scale and the single-entry-codebook convention follow libvorbis where the specification defers to it",
+                                      "floor-0 amplitude bits <= 16; begin-trimming by a short first page is a vorbisfile matter (C07-C09), end trimming is judged here"]
+    ctx.run("san", "specmon", "c01", _n(ctx.tier, 1600, 40000), extra_src=SPEC, stack_mb=256)
+    return ctx.finish(min_evals=8000, min_buckets=150)
+
+
+def C05(ctx):
+    ctx.rule = ("case = one real encode (17 rates incl. template edges, 1-8 (thorough: up to 255) channels, VBR q -0.1..1 / managed abr, hard max, hard min, CBR with reservoir "
+                "and bias variations / one-step entry points, coupling off, lowpass 2 kHz..Nyquist, impulse bias, 13 signal kinds incl. silence, DC, denormals, 10x over-range, "
+                "alternating +-1); evaluation = one packet or header set: headers accepted by libvorbis AND by the model's strict parser and equal to the encoder's "
+                "vorbis_info (channels, rate, block sizes, three bitrate fields); every audio packet returns 0 from vorbis_synthesis; unmanaged: consumed bits in "
+                "(8*bytes-8, 8*bytes]; managed without hard max: never runs out of bits; the model parses the packet to the same bit position and the same block size; long-block "
+                "window flags equal the neighbours' block sizes; bucket = (rate-control kind, channel class, rate band, signal, coupling off, lowpass set)")
+    ctx.assumptions = TRUST_COMMON + ["thorough tier model-parses one packet in four (all are checked by libvorbis)", "NaN/Inf input samples are outside the statement"]
+    ctx.run("san", "specmon", "c05", _n(ctx.tier, 800, 8000), extra_src=SPEC, stack_mb=256)
+    return ctx.finish(min_evals=12000, min_buckets=100)
+
+
+def C02(ctx):
+    ctx.rule = ("case = a source stream (3 of 4: real encoder; 1 of 4: model-made with features the encoder never emits) whose headers are mutated (bit flips, byte sets, truncation, "
+                "extension, splices, zero/ff runs, random bytes, targeted flips in the first 120 body bytes, swapped order) and whose audio packets are valid / truncated / "
+                "noisy / foreign, then 2-3 random call histories of 20-200 calls over the packet-decode typestate (headerin with any packet, idheader, packet_blocksize, "
+                "halfrate, synthesis_init incl. repeated after failure, synthesis / trackonly with wild b_o_s/e_o_s/granulepos/packetno, blockin, pcmout, read(any n), lapout, "
+                "restart, clears in any state, repeated clears, re-init); plus (mode c02f) model set-ups with 1-2 header fields forced to boundary values (64 field sites x "
+                "{0,1,max,max-1,count,count+-1,sign bit,random}; codebook entries up to 2^24-1, dim 0/1/65535) re-packed bit-exactly; evaluation = one library call with its "
+                "return value checked against the documented codes; ASan/UBSan/LSan, CPU budget and a 64 MiB stack (8 MiB confirmation build pending) judge the rest; bucket = "
+                "(source, mutated header, mutation kind, audio mode) | field class")
+    ctx.assumptions = TRUST_COMMON + ["blockin is called only directly after a successful synthesis/trackonly on that block; halfrate only while no decoder is live; lapout only in the "
+                                      "states vorbisfile calls it in (a real block since restart) - other orders are outside the documented protocol",
+                                      "allocation failure is not injected (the library checks no malloc result and no property asks it to)"]
+    ctx.run("san", "pktmon", "c02", _n(ctx.tier, 3200, 120000), extra_src=SPEC, stack_mb=64)
+    ctx.run("san", "pktmon", "c02f", _n(ctx.tier, 3200, 120000), extra_src=SPEC, stack_mb=64)
+    return ctx.finish(min_evals=200000, min_buckets=100)
+
+
+def C11(ctx):
+    ctx.rule = ("case = one stream (4 of 5 real encodes with many block-size transitions, 1 of 5 model-made) decoded clean and then with one disturbance at packet k: drop, duplicate, "
+                "truncate (5 lengths), 1-8 bit flips, random bytes, header packet as audio, restart before k, fresh decoder started at k, track-only, zero-length; under both "
+                "granule conventions (per packet, as the encoder emits; per page: -1 except every P-th packet and the last); evaluation = one (stream, k, disturbance): every "
+                "packet j >= k+2 must yield the same number of samples with the same bits (FNV hash over all channels) as in the clean decode; quick samples 24 k per stream "
+                "(always including the tail), thorough every k; bucket = (disturbance, head|mid|tail, convention, source)")
+    ctx.assumptions = TRUST_COMMON + ["a disturbance may legitimately change packets k and k+1; equality is demanded from k+2 on"]
+    ctx.run("san", "pktmon", "c11", _n(ctx.tier, 800, 12000), extra_src=SPEC)
+    return ctx.finish(min_evals=20000, min_buckets=60)
+
+
+def C13(ctx):
+    ctx.rule = ("case = one scenario ending in every documented clear function called twice: encoder (every template class: 1/2/6/other channels x 9 rates x VBR/managed, coupling "
+                "off, lowpass; stopped after set-up refusal, setup only, setup_init refusal/only, analysis_init, block_init, headerout, 0-300 samples, full encode, abandoned "
+                "mid-stream); decoder (0-3 headers, one header corrupted by 9 mutation kinds, init refusals, some packets decoded; real and model-made headers); vorbisfile "
+                "(intact/truncated/bit-flipped/garbage/zeroed/header-cut chains, seekable/streaming/seek-fails, ov_open_callbacks / ov_test+ov_test_open / ov_test only, callback "
+                "faults, 0-25 seeks/reads/half-rate toggles/lapped seeks); evaluation = one scenario: the sanitizer allocator's live byte count must return to its value before "
+                "the scenario (LeakSanitizer at exit names the allocation), no double free (ASan), close callback count == (1 if open succeeded else 0) and only inside "
+                "ov_clear; bucket = scenario class")
+    ctx.assumptions = TRUST_COMMON + ["live-byte ledger = __sanitizer_get_current_allocated_bytes() of the ASan runtime (libogg is linked statically, so its allocations are counted too)"]
+    ctx.run("san", "pktmon", "c13", _n(ctx.tier, 3600, 90000), extra_src=SPEC)
+    return ctx.finish(min_evals=3000, min_buckets=100)
+
+
+CHECKS = {"C01": C01, "C02": C02, "C05": C05, "C11": C11, "C13": C13, "C04": C04, "C06": C06, "C14": C14, "C15": C15, "C16": C16, "C07": C07, "C08": C08, "C09": C09, "C10": C10, "C17": C17, "C19": C19, "C20": C20}
 
 _SAN = ("sanitizer findings (ASan, UBSan bounds/null/div-by-zero/pointer-overflow subset, LeakSanitizer), fatal signals and "
         "CPU-budget overruns in the same runs also fail the check")
@@ -227,6 +301,29 @@ META.update({
             "level_text": "Held on the executions observed: byte-exact round trip of thousands of comment lists (0-5000 entries, embedded NULs, NULL entries, 300 kB values), vendor string, "
                           "query/query_count equal to the model for mixed-case, non-ASCII and prefix tags; no libc case-mapping call reaches the hostile tables; " + _SAN,
             "level_note": "Trusted: harness packet parser and 10-line model. Locale independence is shown by link-time replacement of libc case mapping, since only C/POSIX locales exist here."},
+})
+META.update({
+    "C01": {"technique": "runtime monitor: differential against an independent from-the-spec reference decoder on model-generated streams covering features the encoder never emits, under ASan+UBSan",
+            "level_text": "Held on the executions observed: thousands of legal set-ups x packets across all floor/residue/codebook/mapping/mode/block-size strata; libvorbis accepts every "
+                          "packet, consumes the same bits, yields the specified sample counts and samples within single-precision rounding of a float64 reference; ill-conditioned blocks "
+                          "are counted and excluded; " + _SAN,
+            "level_note": "Trusted: the model (harness/spec.c, ~1500 lines written from doc/*.tex). Two genuine deviations it found were repaired (residue 2 alignment, stage-less residue)."},
+    "C05": {"technique": "runtime monitor: encoder output judged by libvorbis' bit reader, a strict specification-level parser and the model's bit accounting, under ASan+UBSan",
+            "level_text": "Held on the executions observed: hundreds to thousands of encodes x every packet: headers accepted by decoder and strict parser and equal to the encoder's info; "
+                          "every audio packet valid, consumed to within its last byte (unmanaged), never out of bits without a hard maximum (managed), window flags consistent; " + _SAN,
+            "level_note": "Trusted: harness/spec.c strict parser and packet parser."},
+    "C02": {"technique": "runtime monitor: sanitizers + return-code domain + budgets over mutated/boundary-value headers and random call histories of the packet API",
+            "level_text": "Held on the executions observed: ~10^5-10^6 library calls per run over mutated encoder-made and model-made streams and field-boundary set-ups, in random call orders "
+                          "with interleaved and repeated clears; every return in the documented set; " + _SAN,
+            "level_note": "Trusted: harness typestate (DESIGN 2.3). A clean sanitizer run is not memory safety; intra-object overruns are covered only by -fsanitize=bounds."},
+    "C11": {"technique": "runtime monitor: per-packet output differential (clean vs disturbed decode) over 10 disturbance kinds and two granule conventions, under ASan+UBSan",
+            "level_text": "Held on the executions observed (per-packet granule positions): every packet from k+2 on is bit-identical; with per-page granule positions two genuine, documented "
+                          "limitations of granule-based trimming are reported as known findings; " + _SAN,
+            "level_note": "Trusted: harness. See known_findings.json for the two per-page-granule findings."},
+    "C13": {"technique": "runtime monitor: allocator live-byte ledger around each scenario + LeakSanitizer + ASan double-free detection + close-callback counting",
+            "level_text": "Held on the executions observed: thousands of encoder / decoder / vorbisfile scenarios including refused set-ups, refused headers, failed opens and failed seeks, "
+                          "each ending in doubled clear calls: live heap bytes return to baseline, nothing is freed twice, close runs exactly once and only in ov_clear of an opened handle; " + _SAN,
+            "level_note": "Trusted: ASan runtime's allocation statistics; harness frees its own memory before measuring."},
 })
 LEVEL = {"C12": "fault_enumeration"}
 
